@@ -431,6 +431,72 @@ pub fn check_c06(q: &ConeQ, part: &mut Part) -> Option<Viol> {
 
 /// Deep tier, C05: witnesses are points of the cone; the candidate cell is the subject's own
 /// hash of the witness (validated by C01); it must be covered.
+/// Vertex-grazing cone: the cone of radius r whose rim passes 1.2e-3 of the centre-to-vertex
+/// distance beyond the vertex k of the cell (d, h), coming along the line centre -> vertex (the
+/// cell pokes into the cone by its very tip only: its centre is at r + 0.9988 c2v from the cone
+/// centre, so the cell is kept only if the cell-size bound used at that depth really is >= c2v).
+/// The witness is the point of the diagonal 6e-4 c2v inside the vertex.
+pub fn check_vertex_grazing(d: u8, h: u64, k: usize, r: f64, part: &mut Part) -> Option<Viol> {
+  let inv = 1.0 / nside(d) as f64;
+  let (xc, yc) = center_plane(d, h);
+  let (xv, yv) = match k {
+    0 => (xc, yc - inv),
+    1 => (xc + inv, yc),
+    2 => (xc, yc + inv),
+    _ => (xc - inv, yc),
+  };
+  if yv.abs() > 2.0 - 1e-9 {
+    return None; // a pole: every meridian ends there
+  }
+  let (lc, bc) = ref_unproj(xc, yc);
+  let (lv, bv) = ref_unproj(xv, yv);
+  let (c, v) = (unit_vec(lc, bc), unit_vec(lv, bv));
+  let c2v = ang_dist_vec(&c, &v);
+  let dot = v[0] * c[0] + v[1] * c[1] + v[2] * c[2];
+  let mut t = [v[0] * dot - c[0], v[1] * dot - c[1], v[2] * dot - c[2]];
+  let nt = (t[0] * t[0] + t[1] * t[1] + t[2] * t[2]).sqrt();
+  if !(nt > 1e-12) || r <= 4.0 * c2v {
+    return None;
+  }
+  for x in t.iter_mut() {
+    *x /= nt;
+  }
+  let along = |ang: f64| -> [f64; 3] { [v[0] * ang.cos() + t[0] * ang.sin(), v[1] * ang.cos() + t[1] * ang.sin(), v[2] * ang.cos() + t[2] * ang.sin()] };
+  let lonlat = |p: &[f64; 3]| -> (f64, f64) { (p[1].atan2(p[0]).rem_euclid(TWO_PI), p[2].atan2((p[0] * p[0] + p[1] * p[1]).sqrt())) };
+  let p = along(r - 1.2e-3 * c2v);
+  let w = along(-6e-4 * c2v);
+  let (pl, pb) = lonlat(&p);
+  let (wl, wb) = lonlat(&w);
+  let q = ConeQ { variant: 0, depth: d, delta: 0, lon: pl, lat: pb, r };
+  // the witness must be robustly inside the cone and inside the cell (reference computations)
+  let pu = unit_vec(pl, pb);
+  if !(ang_dist_vec(&pu, &unit_vec(wl, wb)) < r - 2e-4 * c2v) {
+    return None;
+  }
+  let (wx, wy) = ref_proj(wl, wb);
+  if !(outside(d, h, wx, wy) < -1e-4 * inv) {
+    return None;
+  }
+  part.stratum("vertex-grazing-cones", 1, 1);
+  let out = match q.run() {
+    Ok(o) => o,
+    Err(m) => return Some(Viol { api: q.api().into(), kind: "panic".into(), case: q.to_json(), expected: "a coverage".into(), actual: format!("panic: {}", m) }),
+  };
+  part.validated += 1;
+  let map = match out.to_map() {
+    Ok(m) => m,
+    Err(e) => return Some(Viol { api: q.api().into(), kind: "malformed-result".into(), case: q.to_json(), expected: "a valid BMOC".into(), actual: format!("{} entries ({})", out.entries.len(), e) }),
+  };
+  let rs = &map.ranges;
+  let idx = rs.partition_point(|x| x.1 <= h);
+  if !(idx < rs.len() && rs[idx].0 <= h) {
+    let mut case = q.to_json();
+    case["grazing"] = json!({"cell": h.to_string(), "vertex": k});
+    return Some(Viol { api: q.api().into(), kind: "miss".into(), case, expected: format!("cell {}/{}: its point ({:e}, {:e}), 6e-4 of the centre-to-vertex distance inside its vertex #{}, is {:e} rad inside the cone", d, h, wl, wb, k, r - ang_dist_vec(&pu, &unit_vec(wl, wb))), actual: format!("{} entries, the cell is not covered", out.entries.len()) });
+  }
+  None
+}
+
 pub fn check_c05_deep(q: &ConeQ, listed_kf1: bool, part: &mut Part) -> Verdict {
   check_c05_deep_nb(q, listed_kf1, 0, part)
 }
@@ -927,6 +993,33 @@ pub fn run(ctx: &Ctx, c06: bool) -> i32 {
     });
     total.merge(band);
   }
+  // vertex-grazing cones (C05): every vertex of the class cells (corners, borders, seam and
+  // transition-latitude cells, 32 interior cells per base cell) of depths 8..10 (11 thorough), cone
+  // radii 0.06 and 0.15 rad -- start depth 3..4, i.e. 4..7 levels above the requested depth, where
+  // the per-depth cell-size bounds are used at their tightest
+  if !c06 {
+    let depths: Vec<u8> = if quick { vec![8, 10] } else { vec![7, 8, 9, 10, 11] };
+    let cells: Vec<(u8, u64)> = depths.iter().flat_map(|&d| crate::alpha::class_cells(d).into_iter().map(move |h| (d, h))).collect();
+    let chunk = 64usize;
+    let graze = par_jobs((cells.len() + chunk - 1) / chunk, |job| {
+      let mut part = Part::new();
+      if ctx.over_budget() {
+        part.caps.push(format!("wall budget {}s reached in the vertex-grazing cones", ctx.budget_s));
+        return part;
+      }
+      for &(d, h) in &cells[job * chunk..((job + 1) * chunk).min(cells.len())] {
+        for k in 0..4usize {
+          for r in [0.06, 0.15] {
+            if let Some(v) = check_vertex_grazing(d, h, k, r, &mut part) {
+              part.viol(v);
+            }
+          }
+        }
+      }
+      part
+    });
+    total.merge(graze);
+  }
   let mut extra = Map::new();
   // the recorded witness of KF-1 is re-executed on every run (information only)
   if !c06 {
@@ -961,6 +1054,10 @@ pub fn replay(case: &Value, c06: bool, findings: &Findings) -> Option<Viol> {
   let mut part = Part::new();
   if c06 {
     return check_c06(&q, &mut part);
+  }
+  if let Some(g) = case.get("grazing") {
+    // rebuilt from (cell, vertex, radius): the cone centre follows
+    return check_vertex_grazing(q.depth, u64_from_json(&g["cell"]), g["vertex"].as_u64().unwrap_or(0) as usize, q.r, &mut part);
   }
   let listed = findings.listed("C05", KF1);
   let v = if q.depth <= 5 { check_c05(&q, listed, &mut part) } else { check_c05_deep(&q, listed, &mut part) };
